@@ -213,7 +213,7 @@ func findFunc(f *ast.File, name string) *ast.FuncDecl {
 // callMasks extracts the literal call-flag expressions of the contract-call path. A mask that is
 // not found is reported as 255 (which no 4-bit flag set equals, so the Lean obligations break).
 func callMasks(repo string) (map[string]int, error) {
-	res := map[string]int{"loadTokenReq": 255, "safeDropMask": 255, "childIsAnd": 0, "loadScriptMask": 255, "safeDefMask": 255, "callFromNativeFlags": 255}
+	res := map[string]int{"loadTokenReq": 255, "safeDropMask": 0, "safeDropCall": 0, "safeDropToken": 0, "callViaInternal": 0, "tokenViaInternal": 0, "childIsAnd": 0, "loadScriptMask": 255, "safeDefMask": 255, "callFromNativeFlags": 255}
 	f, err := parseFile(repo, "pkg/core/interop/contract/call.go")
 	if err != nil {
 		return nil, err
@@ -231,23 +231,47 @@ func callMasks(repo string) (map[string]int, error) {
 			return true
 		})
 	}
-	// callInternal: `f &^= (<expr>)` in the md.Safe branch
-	if fd := findFunc(f, "callInternal"); fd != nil {
-		ast.Inspect(fd.Body, func(n ast.Node) bool {
-			if is, ok := n.(*ast.IfStmt); ok {
-				if sel, ok := is.Cond.(*ast.SelectorExpr); ok && sel.Sel.Name == "Safe" {
-					for _, st := range is.Body.List {
-						if as, ok := st.(*ast.AssignStmt); ok && as.Tok == token.AND_NOT_ASSIGN && len(as.Rhs) == 1 {
-							if v, ok := evalFlags(as.Rhs[0], -1); ok && v >= 0 && len(is.Body.List) == 1 {
-								res["safeDropMask"] = v
+	// `if <md>.Safe { <f> &^= (<expr>) … }`: in callInternal (shared by System.Contract.Call and CALLT), or locally in
+	// Call / LoadToken; and whether Call / LoadToken hand over to callInternal.
+	safeDropIn := func(fn string) int {
+		mask := 0
+		if fd := findFunc(f, fn); fd != nil {
+			ast.Inspect(fd.Body, func(n ast.Node) bool {
+				if is, ok := n.(*ast.IfStmt); ok {
+					if sel, ok := is.Cond.(*ast.SelectorExpr); ok && sel.Sel.Name == "Safe" {
+						for _, st := range is.Body.List {
+							if as, ok := st.(*ast.AssignStmt); ok && as.Tok == token.AND_NOT_ASSIGN && len(as.Rhs) == 1 {
+								if v, ok := evalFlags(as.Rhs[0], -1); ok && v >= 0 {
+									mask |= v
+								}
 							}
 						}
 					}
 				}
-			}
-			return true
-		})
+				return true
+			})
+		}
+		return mask
 	}
+	callsInternal := func(fn string) int {
+		found := 0
+		if fd := findFunc(f, fn); fd != nil {
+			ast.Inspect(fd.Body, func(n ast.Node) bool {
+				if ce, ok := n.(*ast.CallExpr); ok {
+					if id, ok := ce.Fun.(*ast.Ident); ok && id.Name == "callInternal" {
+						found = 1
+					}
+				}
+				return true
+			})
+		}
+		return found
+	}
+	res["safeDropMask"] = safeDropIn("callInternal")
+	res["safeDropCall"] = safeDropIn("Call")
+	res["safeDropToken"] = safeDropIn("LoadToken")
+	res["callViaInternal"] = callsInternal("Call")
+	res["tokenViaInternal"] = callsInternal("LoadToken")
 	// callExFromNative: `f = ic.VM.Context().GetCallFlags() & f`
 	if fd := findFunc(f, "callExFromNative"); fd != nil {
 		ast.Inspect(fd.Body, func(n ast.Node) bool {
@@ -407,7 +431,9 @@ func genInterops(repo string) (string, error) {
 	}
 	b.WriteString("-- literal call-flag expressions of the contract-call path (255 = pattern not found in the source)\n")
 	fmt.Fprintf(&b, "/-- contract/call.go LoadToken: `ctx.GetCallFlags().Has(…)`. -/\ndef loadTokenReq : Nat := %d\n", m["loadTokenReq"])
-	fmt.Fprintf(&b, "/-- contract/call.go callInternal: `if md.Safe { f &^= (…) }`. -/\ndef safeDropMask : Nat := %d\n", m["safeDropMask"])
+	fmt.Fprintf(&b, "/-- contract/call.go callInternal (shared by System.Contract.Call and CALLT): `if md.Safe { f &^= (…) }` (0: none). -/\ndef safeDropMask : Nat := %d\n", m["safeDropMask"])
+	fmt.Fprintf(&b, "/-- the same pattern inside Call (System.Contract.Call only) / LoadToken (CALLT only), 0: none. -/\ndef safeDropCallOnly : Nat := %d\ndef safeDropTokenOnly : Nat := %d\n", m["safeDropCall"], m["safeDropToken"])
+	fmt.Fprintf(&b, "/-- Call / LoadToken hand over to callInternal. -/\ndef callViaInternal : Bool := %v\ndef tokenViaInternal : Bool := %v\n", m["callViaInternal"] == 1, m["tokenViaInternal"] == 1)
 	fmt.Fprintf(&b, "/-- contract/call.go callExFromNative contains `f = ic.VM.Context().GetCallFlags() & f`. -/\ndef childIsAnd : Bool := %v\n", m["childIsAnd"] == 1)
 	fmt.Fprintf(&b, "/-- contract/call.go CallFromNative: flags passed to callExFromNative. -/\ndef callFromNativeFlags : Nat := %d\n", m["callFromNativeFlags"])
 	fmt.Fprintf(&b, "/-- runtime/engine.go LoadScript: `fs = ctx.GetCallFlags() & … & fs`, the constant part. -/\ndef loadScriptMask : Nat := %d\n", m["loadScriptMask"])
